@@ -351,13 +351,12 @@ def grid_case(case, res):
         history.reuse_buffer(res, case, zn, [("coherent_dedispersion", lambda q_: pb.coherent_dedispersion(q_, d0)),
                                              ("coherent_dedispersion ref=top", lambda q_: pb.coherent_dedispersion(q_, dms[2], ref_freq=q_.max_freq))],
                              "dedisperse")
-        # use the signal, re-assign its sample rate (and chan_bw, to keep the baseband contract), dedisperse: == freshly built signal
+        # use the signal, re-assign its sample rate, dedisperse: == freshly built signal
         obj = type(zn).like(zn)
         _ = (pb.coherent_dedispersion(obj, d0), obj.dt, obj.channel_freqs, obj.max_freq)
         for factor in (2, 0.5):
             r2 = obj.sample_rate * factor
-            obj.sample_rate = r2
-            obj.chan_bw = r2
+            obj.sample_rate = r2             # (a baseband signal is critically sampled: its channel width follows)
             fresh = type(zn).like(zn, sample_rate=r2)
             try:
                 a_, b_ = pb.coherent_dedispersion(obj, d0), pb.coherent_dedispersion(fresh, d0)
